@@ -411,29 +411,61 @@ let handle (line : string) : string =
        let _ = next t in
        let n = next_int t in
        let st = ref init in
-       let inflight : n option ref = ref None in      (* hop id of the send blocked in its write, not yet on the wire *)
+       (* the send that has not returned yet: hop id, waiter index, was it registered in an open table,
+          request octets let through the write gate so far, first octet already on the wire *)
+       let sending : (n * int * bool * int * bool) option ref = ref None in
+       let req_len = 44 in                              (* header 20 + Origin-Host "host.example.com" 8+16 *)
+       let labels : (int * string) list ref = ref [] in (* futures the harness dropped / sends that returned Err *)
+       let errs : int list ref = ref [] in              (* sends that returned Err: no future was handed out *)
        let drain () =
          let k = List.length !st.inq in
          for _ = 1 to k do st := step !st ReaderStep done in
        let apply e = st := step !st e; drain () in
-       let wire () = (match !inflight with Some h -> inflight := None; apply (WireOut h) | None -> ()) in
+       let wire () = (match !sending with
+                      | Some (h, i, reg, k, false) -> sending := Some (h, i, reg, k, true); if reg then apply (WireOut h)
+                      | _ -> ()) in
+       let finish () = (wire (); sending := None) in
        for _ = 1 to n do
          (match next t with
-          | "R" -> wire (); let h = next_n t in apply (Register h); inflight := Some h
-          | "G" -> let k = int_of_string ("0x" ^ next t) in if k > 0 then wire ()
-          | "W" -> wire ()
+          | "R" -> finish (); let h = next_n t in
+                   let i = int_of_nat !st.nw in let reg = not !st.closed in
+                   apply (Register h);
+                   (* on a closed table send_message returns Err at once: nothing is blocked, no future exists *)
+                   if reg then sending := Some (h, i, reg, 0, false) else begin sending := None; errs := i :: !errs end
+          | "G" -> let k = int_of_string ("0x" ^ next t) in
+                   if k > 0 then begin
+                     wire ();
+                     (match !sending with
+                      | Some (h, i, reg, a, w) -> if a + k >= req_len then sending := None else sending := Some (h, i, reg, a + k, w)
+                      | None -> ())
+                   end
+          | "W" -> finish ()
+          | "WE" -> (match !sending with
+                     | Some (_, i, true, _, _) -> labels := (i, "ERR") :: !labels; errs := i :: !errs; sending := None; apply (Abandon (nat_of_int i))
+                     | _ -> ())
+          | "D" -> let i = next_int t in
+                   (match !sending with
+                    | Some (_, j, _, _, _) when j = i -> ()                (* the send has not returned: nothing to drop yet *)
+                    | _ -> if i < int_of_nat !st.nw && not (List.mem_assoc i !labels) && not (List.mem i !errs) then begin
+                             labels := (i, "DROPPED") :: !labels; apply (Abandon (nat_of_int i)) end)
+          | "T" -> let _ = next t in ()
           | "P" -> let h = next_n t in apply (Peer h)
           | "PS" -> let h = next_n t in let _ = next t in apply (Peer h)
+          | "PG" -> let h = next_n t in let _ = next t in let _ = next t in apply (Peer h)
           | "PT" -> let _ = next t in let _ = next t in ()
           | "B" -> let _ = next t in apply PeerBad
           | s -> raise (Parse ("client event " ^ s)))
        done;
-       wire ();
+       finish ();
        Buffer.add_string b "CL";
-       List.iter (fun w -> match w with
-         | WGot f -> Buffer.add_string b (" GOT:" ^ hex_of_n f.hop0 ^ ":" ^ Printf.sprintf "%x" (int_of_nat f.fid))
-         | WDropped -> Buffer.add_string b " ERR"
-         | WPending0 -> Buffer.add_string b " PENDING") (outcomes !st);
+       List.iteri (fun i w ->
+         match List.assoc_opt i !labels with
+         | Some l -> Buffer.add_string b (" " ^ l)
+         | None ->
+           (match w with
+            | WGot f -> Buffer.add_string b (" GOT:" ^ hex_of_n f.hop0 ^ ":" ^ Printf.sprintf "%x" (int_of_nat f.fid))
+            | WDropped -> Buffer.add_string b " ERR"
+            | WPending0 -> Buffer.add_string b " PENDING")) (outcomes !st);
        Buffer.add_string b (if !st.closed then " READER stopped" else " READER alive")
    | "X" ->
        let ds = get_dict (next t) in
